@@ -44,7 +44,7 @@ def bounds(tier):
 def cases(tier, seed):
     out = []
     N = 3 if tier == "quick" else 4
-    for text in base_programs(tier) + alias_programs(tier) + abstraction_programs(tier):
+    for text in base_programs(tier, extended=True) + alias_programs(tier) + abstraction_programs(tier):
         for si, st in enumerate(SETTINGS):
             if si == 1 and "{" not in text:
                 continue
